@@ -75,8 +75,11 @@ def generate(rng, tier, idx):
                 for i, img in enumerate(imgs):
                     ops.append({"op": "img_new", "iid": base + i, "attrs": dict(img, path="%s.g%d" % (img["path"], base))})
                 imgs_base = base
-        else:
+        elif r < 0.95:
             ops.append({"op": "dumps"})
+        else:
+            # a stored document is loaded INTO the live manifest
+            ops.append({"op": "im_load_onto", "pick": rng.randint(0, 20), "collide": rng.random() < 0.6, "version": pick(rng, ["1.2", "1.2", "1.1"])})
         # after a restart, later adds use the newest pool generation
         if ops[-1]["op"] == "img_add":
             gens = [o["iid"] - (o["iid"] % 1000) for o in ops if o["op"] == "img_new"]
